@@ -285,7 +285,7 @@ func hashRoles(P *Program, fn *ssa.Function) (call *ssa.Call, elems []SeqElem, t
 			}
 			returnsIt := true
 			for _, r := range returnsOf(g) {
-				if len(r.Results) != 1 || siteOf(r.Results[0]) != ssa.Value(hc) {
+				if retCount(r) != 1 || siteOf(retValue(r, 0)) != ssa.Value(hc) {
 					returnsIt = false
 				}
 			}
